@@ -6,23 +6,52 @@ records the observation of every step; the driver runs the same history through 
 heap-of-iterators model and through the Lean immutable-list specification and returns both
 observation lists.  Comparison is step by step and stops at the first difference (after
 an exception the states may legitimately differ).
+
+Entry `history`: method calls only.  Entry `hist`: the caller's side as well — every container a
+call hands out and every list the caller builds is an object of the caller (addressed by its
+order of creation): `lit` builds one, `mut` changes one in place, a source {"k": "ref", "j": j}
+passes one to Stream() / append() / thub().  The Lean side keeps these containers in a second heap
+(values); the Python side keeps the objects themselves and asserts after every step that a
+returned container is a new object of the requested type ("alias", "ctype"), that no container of
+the caller changed behind his back ("dirty": those addressed by index, "dirtyarg": literal
+arguments), and at the end that every container holds what the list model says.  Operand flavours
+(c03_flavours.py): iterable flavour of a source ("as"), constructor of take / peek ("ctor"), way of
+draining ("via"), flavour of the element function ("fl"), tagged item representations ("tagged"),
+Stream subclass instances with their own __iter__ ("raw", "altstream", "restream"), sources of
+several arguments with an existing object among them ("mixed").
 """
-import gc, itertools, signal, sys, warnings
+import gc, itertools, json, operator, resource, signal, sys, warnings
 import common
 from common import err_kind
+from props import c03_flavours as FL
 
 ID = "C03"
 RULE = ("random histories (length 3..14 quick, ..40 thorough) over a pool of finite / periodic Streams, "
         "copies, tee outputs and thubs; counts chosen relative to the remaining length (None, negative, 0, "
         "within, equal, beyond, x.5 / other floats, inf, -inf, nan); every history ends by draining every live "
-        "object; plus exhaustive short histories; a history is non-trivial when at least one step returned "
-        "items; distinct = distinct JSON history")
+        "object; plus exhaustive short histories.  Entry `hist`: the same histories with the caller's side — "
+        "every container handed out by take / peek / list() (default constructor, constructor=list, tuple, a "
+        "capped one) and every list he builds is kept, mutated in place (clear, reverse, pop, extend, overwrite) "
+        "and passed on to Stream() / append() / thub() (the same object several times, as itself or as tuple, "
+        "generator, iterator, deque, Iterable class, Stream subclass whose __iter__ is not _data); freshness of "
+        "returned containers, unchanged arguments and the final contents of every caller container are asserted; "
+        "items plain ints or tagged representations (int / float / Fraction / bool twins of one value, unhashable, "
+        "None); element functions as lambda / def / bound method / callable / partial; exhaustive "
+        "(call, count, constructor, mutation, following use) families; long runs (streams of 1000..9000 items with "
+        "counts around powers of two and beyond 4096, histories of 300..2000 steps, peek/take/append loops of "
+        "60..2000 rounds).  A history is non-trivial when at least one step returned items; distinct = distinct JSON")
 TRUSTED = [
     "hand-written Lean model ALV/Model/C03.lean of lazy_stream.Stream/StreamTeeHub/thub and lazy_itertools.tee "
     "(modelled, not verified: itertools.tee/chain/cycle/repeat, map/filter builtins, list iterators, the generator "
     "protocol with the pre-PEP-479 reading of next() inside a generator)",
     "element functions of map/filter are drawn from a fixed table of 6 maps / 7 predicates on ints (same table in "
     "ALV/Driver/C03.lean); the theorems quantify over arbitrary functions",
+    "the Lean model works with values: that a returned container is a new Python object, that an argument list is "
+    "the same object with the same items afterwards (identity facts) is asserted by the harness on every step "
+    "(alias / dirty / dirtyarg observations), not modelled; independence of a step from the calls on other "
+    "objects holds in the list model by construction (specStep touches one pool entry)",
+    "tagged items: harness/props/c03_flavours.py maps a model item (value, tag) to the Python object that stands "
+    "for it and back (rep / unrep); the model only moves items around and applies the element functions to the value",
 ]
 ASSUMPTIONS = [
     "an object whose iterator was handed to another object (Stream(s), s.append(t), thub(s, n), tee(s, n)) is not "
@@ -31,17 +60,30 @@ ASSUMPTIONS = [
     "list()/take(inf) only on finite streams (Python would not terminate otherwise)",
     "endless (periodic) sources are covered by the tie and by the Lean spec (eventually periodic sequences); the "
     "refinement theorems are stated for finite sources",
+    "a list that the caller has passed to Stream() / append() / thub() is not mutated by him afterwards (it may be "
+    "passed again, any number of times).  The list model takes the contents at the call (hist_ref_snapshot); the "
+    "real code reads a list argument lazily through a list iterator, and whether a later mutation reaches the "
+    "stream is not fixed by the property — such histories are cut at the mutation (compare: _lent_cut), so an "
+    "eager copy of the argument and a lazy read are both accepted.  What is fixed and checked: the streams never "
+    "change the list, every call sees the whole list, containers handed out are the caller's to change",
+    "element functions are pure (a closure mutated after map/filter, a function that reads another stream, a source "
+    "that raises are outside the immutable list model)",
+    "a Stream subclass overriding __iter__ is covered as an argument (Stream(x), append(x), thub(x, n), tee(x, n), "
+    "list(x), next(iter(x))); take / peek / copy / skip / ... called on such an instance read _data by design",
 ]
 
 MANIFEST = {
     "text": "Stream / StreamTeeHub / thub / tee as a heap of iterators (Lean model) refine the immutable list "
             "model for every operation and every history over finite sources (step_refines, run_refines, "
-            "independent, thub_uses, take_short, peek_pure, count rounding); periodic sources: spec prefix lemma, "
-            "bare periodic take, and the differential tie",
+            "independent, thub_uses, take_short, peek_pure, count rounding), also when the caller keeps, mutates "
+            "and passes on the containers he gets and gives (hist_refines, hist_results_owned, hist_lists_frame, "
+            "hist_mut_state, hist_ref_snapshot); periodic sources: spec prefix lemma, bare periodic take, and the "
+            "differential tie",
     "note": "defect D1 (take/peek/limit/skip past the end raise RuntimeError under PEP 479) is recorded as known "
             "with four signatures; proposed_fixes/D1-take-past-end.diff repairs it (check then prints no finding)",
-    "technique": "Lean 4 refinement proof (hub invariant buf ++ den parent = original, fuel-indexed next) + "
-                 "step-by-step differential histories impl vs model vs spec",
+    "technique": "Lean 4 refinement proof (hub invariant buf ++ den parent = original, fuel-indexed next; caller "
+                 "containers as a second heap of values) + step-by-step differential histories impl vs model vs "
+                 "spec with identity assertions on caller-owned containers",
 }
 
 MAPS = [lambda x: x + 1, lambda x: 2 * x, lambda x: -x, lambda x: x * x, lambda x: x % 3, lambda x: x - 7]
@@ -91,23 +133,8 @@ def _capped(itr):
     return out
 
 
-def _build(src, pool, Stream):
-    """python argument tuple for Stream(*args) / append(*args); data for thub"""
-    k = src["k"]
-    if k == "list":
-        return (list(src["xs"]),)
-    if k == "cyc":
-        return tuple(src["xs"])
-    if k == "chain":
-        return tuple(list(xs) for xs in src["xss"])
-    if k == "const":
-        return (src["v"],)
-    if k == "obj":
-        j = src["j"]
-        if j >= len(pool) or pool[j] is None:
-            raise LookupError("noobj")
-        return (pool[j],)
-    raise ValueError(k)
+class _NoList(Exception):
+    pass
 
 
 def _uses(hub):
@@ -116,96 +143,258 @@ def _uses(hub):
     return len(it) if isinstance(it, list) else -1
 
 
-def _moved(src, pool, StreamTeeHub):
-    """after a successful use of an `obj` source: a plain Stream is dead from now on"""
-    if src["k"] == "obj":
-        o = pool[src["j"]]
-        if o is not None and not isinstance(o, StreamTeeHub):
-            pool[src["j"]] = None
+class Runner(object):
+    """runs one history on the real code.  `pool`: the Streams / StreamTeeHubs by index;
+    `objs`: the containers owned by the caller (results of take / peek / list(), lists he built),
+    `want`: what each of them must hold (the very objects, in order) as long as the caller does
+    not touch it."""
 
+    def __init__(self, case):
+        from audiolazy import Stream, StreamTeeHub, thub
+        from audiolazy import lazy_itertools as lit
+        self.Stream, self.Hub, self.thub, self.lit = Stream, StreamTeeHub, thub, lit
+        self.hist = case.get("entry") == "hist"
+        self.tagged = bool(case.get("tagged"))
+        self.cap = int(case.get("cap", CAP))
+        self.pool, self.objs, self.want, self.given = [], [], [], []
+        self.tick = 0
+        self.arg_objs, self.arg_want = [], []
 
-def impl(case):
-    # a request that does not terminate (e.g. filter rejecting every item of an endless stream)
-    # is cut by a CPU-time alarm; a first alarm is confirmed by a second run with a longer
-    # budget, so that a stalled machine can never turn into a reported "hang"
-    global _HANGS
-    first, second = (3.0, 15.0) if _HANGS < 3 else ((1.0, 4.0) if _HANGS < 8 else (0.1, 0.4))  # real hangs stay affordable
-    steps, timed_out = _run_history(case, first)
-    if timed_out:
-        steps, timed_out = _run_history(case, second)
-        if timed_out:
+    # --- items ---------------------------------------------------------------------------
+    def item_in(self, j):
+        return FL.rep(j[0], j[1]) if self.tagged else j
+
+    def item_out(self, x):
+        if self.tagged:
+            return FL.unrep(x)
+        if type(x) is not int:
+            raise FL.BadItem(repr(x)[:60])
+        return x
+
+    def capped(self, itr):
+        out = list(itertools.islice(itr, self.cap + 1))
+        if len(out) > self.cap:
+            raise OverflowError("ENDLESS")
+        return out
+
+    def fn(self, table, op, key, pred=False):
+        base = table[op[key]]
+        if self.tagged:
+            base = FL.tagged_pred(base) if pred else FL.tagged_map(base)
+        return FL.fn_of(base, op.get("fl"))
+
+    # --- arguments -----------------------------------------------------------------------
+    def build(self, src):
+        """python argument tuple for Stream(*args) / append(*args); data for thub"""
+        k = src["k"]
+        fl = src.get("as")
+        if k == "list":
+            return (FL.iterable_of(self.literal(src["xs"]), fl, self.Stream),)
+        if k == "cyc":
+            return tuple(self.item_in(x) for x in src["xs"])
+        if k == "chain":
+            return tuple(FL.iterable_of(self.literal(xs), fl, self.Stream) for xs in src["xss"])
+        if k == "const":
+            return (self.item_in(src["v"]),)
+        if k == "obj":
+            j = src["j"]
+            if j >= len(self.pool) or self.pool[j] is None:
+                raise LookupError("noobj")
+            return (self.pool[j],)
+        if k == "mixed":                                  # several iterables, one of them a Stream / thub
+            j = src["j"]
+            if j >= len(self.pool) or self.pool[j] is None:
+                raise LookupError("noobj")
+            return (FL.iterable_of(self.literal(src["pre"]), fl, self.Stream), self.pool[j],
+                    FL.iterable_of(self.literal(src["post"]), fl, self.Stream))
+        if k == "ref":
+            j = src["j"]
+            if j >= len(self.objs):
+                raise _NoList()
+            arg = FL.iterable_of(self.objs[j], fl, self.Stream)
+            self.given.append(arg)
+            return (arg,)
+        raise ValueError(k)
+
+    def literal(self, xs):
+        """a list written as an argument of a call: the caller keeps it too (it must stay what it is)"""
+        base = [self.item_in(x) for x in xs]
+        if self.hist:
+            self.arg_objs.append(base)
+            self.arg_want.append(list(base))
+        return base
+
+    def moved(self, src):
+        """after a successful use of an `obj` source: a plain Stream is dead from now on"""
+        if src["k"] in ("obj", "mixed"):
+            o = self.pool[src["j"]]
+            if o is not None and not isinstance(o, self.Hub):
+                self.pool[src["j"]] = None
+
+    # --- results -------------------------------------------------------------------------
+    def container(self, r, expect):
+        """observation of a returned container; in a `hist` history it now belongs to the caller:
+        it must be a container of the requested type, and a new object (not one the caller
+        already holds, not one he passed in)"""
+        ob = {"v": [self.item_out(x) for x in r]}
+        if expect is not None and type(r) is not expect:
+            ob["ctype"] = type(r).__name__
+        if self.hist:
+            if isinstance(r, list) and (any(r is o for o in self.objs) or any(r is g for g in self.given)):
+                ob["alias"] = True
+            self.objs.append(r)
+            self.want.append(list(r))
+        return ob
+
+    def _scan(self, objs, want):
+        out = []
+        n = len(objs)
+        if n <= 64 or self.tick % 64 == 0:
+            js = range(n)
+        else:                     # long histories: the newest ones and a rotating window every step, all of
+            a = (self.tick * 16) % n                      # them every 64 steps (and the final contents always)
+            js = list(range(a, min(a + 16, n))) + list(range(n - 16, n))
+        for j in js:
+            o, w = objs[j], want[j]
+            if len(o) != len(w) or any(map(operator.is_not, o, w)):
+                out.append(j)
+                want[j] = list(o)
+        return out
+
+    def dirty(self):
+        """caller containers that changed although the caller did not touch them: (containers he got
+        or built and addresses by index, lists he wrote as literal arguments of a call)"""
+        self.tick += 1
+        return self._scan(self.objs, self.want), self._scan(self.arg_objs, self.arg_want)
+
+    def lists(self):
+        return [[self.item_out(x) for x in o] for o in self.objs]
+
+    # --- one step ------------------------------------------------------------------------
+    def step(self, op):
+        try:
+            ob = self._step(op)
+        except _Timeout:
+            raise
+        except _NoList:
+            ob = {"err": "nolist"}
+        except FL.BadItem as e:
+            ob = {"err": "baditem:" + str(e)}
+        except OverflowError as e:
+            ob = {"err": "ENDLESS" if "ENDLESS" in str(e) else "OverflowError"}
+        except MemoryError:
+            global _HANGS, _MEMERR
+            _MEMERR = True
             _HANGS += 1
-    return {"steps": steps}
+            ob = {"err": "ENDLESS"}
+        except Exception as e:
+            ob = {"err": err_kind(e)}
+        if self.hist and op["op"] != "mut":
+            try:
+                d = self.dirty()
+            except _Timeout:
+                raise
+            except Exception as e:                # a caller container that cannot even be read any more
+                d = ["unreadable:" + err_kind(e)], []
+            if d[0]:
+                ob = dict(ob, dirty=d[0])
+            if d[1]:
+                ob = dict(ob, dirtyarg=True)
+        return ob
 
+    def _mut(self, op):
+        j, m = op["j"], op["m"]
+        if j >= len(self.objs):
+            return {"err": "nolist"}
+        o = self.objs[j]
+        if not isinstance(o, list):
+            return {"err": "immutable"}
+        k = m["k"]
+        if k == "clear":
+            del o[:]
+        elif k == "reverse":
+            o.reverse()
+        elif k == "pop0":
+            del o[:1]
+        elif k == "poplast":
+            del o[-1:]
+        elif k == "extend":
+            o.extend([self.item_in(x) for x in m["xs"]])
+        elif k == "fill":
+            o[:] = [self.item_in(m["v"])] * len(o)
+        else:
+            raise ValueError(k)
+        self.want[j] = list(o)
+        return {"self": True}
 
-_HANGS = 0
+    def _take(self, obj, o, op):
+        n = cnt_py(op["n"])
+        if n is None:
+            return {"x": self.item_out(getattr(obj, o)())}
+        ctor = op.get("ctor", "cap")
+        if ctor == "cap":
+            return self.container(getattr(obj, o)(n, constructor=self.capped), list)
+        if ctor == "list":                                   # the default constructor
+            return self.container(getattr(obj, o)(n), list)
+        if ctor == "listkw":
+            return self.container(getattr(obj, o)(n=n, constructor=list), list)
+        if ctor == "tuple":
+            return self.container(getattr(obj, o)(n, constructor=tuple), tuple)
+        raise ValueError(ctor)
 
+    def _drain(self, obj, op):
+        via = op.get("via", "cap")
+        if via == "cap":
+            return self.container(self.capped(iter(obj)), None)
+        if via == "list":
+            return self.container(list(obj), None)
+        if via == "tuple":
+            return self.container(tuple(obj), None)
+        if via == "for":
+            out = []
+            for x in obj:
+                out.append(x)
+                if len(out) > self.cap:
+                    raise OverflowError("ENDLESS")
+            return self.container(out, None)
+        raise ValueError(via)
 
-def _run_history(case, budget):
-    from audiolazy import Stream, StreamTeeHub, thub
-    from audiolazy import lazy_itertools as lit
-    pool, steps, timed_out = [], [], False
-    old = signal.signal(signal.SIGVTALRM, _alarm)
-    hook, sys.unraisablehook = sys.unraisablehook, lambda *_a: None   # StreamTeeHub.__del__ after a failed __init__
-    gc_was = gc.isenabled()
-    gc.disable()                      # a full collection inside the timed region could look like a hang
-    signal.setitimer(signal.ITIMER_VIRTUAL, budget)
-    try:
-        with warnings.catch_warnings():
-            warnings.simplefilter("ignore")
-            for op in case["ops"]:
-                try:
-                    ob = _step(op, pool, Stream, StreamTeeHub, thub, lit)
-                except _Timeout:
-                    ob = {"err": "ENDLESS"}
-                    timed_out = True
-                if ob.get("err") == "ENDLESS":      # the request does not terminate: same as the
-                    steps.append({"hang": True})    # model's / spec's "hang"; the history stops here
-                    break
-                steps.append(ob)
-            signal.setitimer(signal.ITIMER_VIRTUAL, 0)
-            for o in pool:                      # no MemoryLeakWarning noise from __del__
-                if isinstance(o, StreamTeeHub) and isinstance(getattr(o, "_iters", None), list):
-                    o._iters[:] = []
-    except _Timeout:                  # alarm between two steps: let the confirmation run decide
-        timed_out = True
-        steps.append({"hang": True})
-    finally:
-        signal.setitimer(signal.ITIMER_VIRTUAL, 0)
-        signal.signal(signal.SIGVTALRM, old)
-        sys.unraisablehook = hook
-        if gc_was:
-            gc.enable()
-    return steps, timed_out
-
-
-def _step(op, pool, Stream, StreamTeeHub, thub, lit):
-    o = op["op"]
-    obj = None
-    if "i" in op:
-        i = op["i"]
-        if i >= len(pool) or pool[i] is None:
-            return {"err": "noobj"}
-        obj = pool[i]
-    ishub = isinstance(obj, StreamTeeHub)
-    try:
+    def _step(self, op):
+        pool, Hub = self.pool, self.Hub
+        o = op["op"]
+        if o == "lit":
+            self.objs.append([self.item_in(x) for x in op["xs"]])
+            self.want.append(list(self.objs[-1]))
+            return {"new": [len(self.objs) - 1]}
+        if o == "mut":
+            return self._mut(op)
+        obj = None
+        if "i" in op:
+            i = op["i"]
+            if op.get("src", {}).get("k") == "ref" and op["src"]["j"] >= len(self.objs):
+                return {"err": "nolist"}                # the model looks the list up first
+            if i >= len(pool) or pool[i] is None:
+                return {"err": "noobj"}
+            obj = pool[i]
+        ishub = isinstance(obj, Hub)
         if o == "new":
             try:
-                args = _build(op["src"], pool, Stream)
+                args = self.build(op["src"])
             except LookupError:
                 return {"err": "noobj"}
-            s = Stream(*args)
-            _moved(op["src"], pool, StreamTeeHub)
+            if op.get("raw"):                            # the Stream subclass instance itself
+                s = FL.stream_classes(self.Stream)[0](*args)
+            else:
+                s = self.Stream(*args)
+            self.moved(op["src"])
             pool.append(s)
             return {"new": [len(pool) - 1]}
         if o in ("take", "peek"):
-            n = cnt_py(op["n"])
-            r = getattr(obj, o)(n, constructor=_capped) if n is not None else getattr(obj, o)()
-            return {"x": r} if n is None else {"v": r}
+            return self._take(obj, o, op)
         if o == "next":
-            return {"x": next(iter(obj))}
+            return {"x": self.item_out(next(iter(obj)))}
         if o == "drain":
-            return {"v": _capped(iter(obj))}
+            return self._drain(obj, op)
         if o in ("skip", "limit", "append", "map", "filter"):
             before = _uses(obj) if ishub else 0
             src = op.get("src")
@@ -213,12 +402,12 @@ def _step(op, pool, Stream, StreamTeeHub, thub, lit):
                 if o == "skip" or o == "limit":
                     r = getattr(obj, o)(cnt_py(op["n"]))
                 elif o == "map":
-                    r = obj.map(MAPS[op["f"]])
+                    r = obj.map(self.fn(MAPS, op, "f"))
                 elif o == "filter":
-                    r = obj.filter(PREDS[op["p"]])
+                    r = obj.filter(self.fn(PREDS, op, "p", pred=True))
                 else:
                     try:
-                        args = _build(src, pool, Stream)
+                        args = self.build(src)
                     except LookupError:
                         # the model pops the use first (Stream(self)), then fails on the argument
                         if ishub:
@@ -229,7 +418,7 @@ def _step(op, pool, Stream, StreamTeeHub, thub, lit):
                             pool.append(None)
                         return {"err": "noobj"}
                     r = obj.append(*args)
-                    _moved(src, pool, StreamTeeHub)
+                    self.moved(src)
             except Exception as e:
                 after = _uses(obj) if ishub else 0
                 if ishub and (after < before if before >= 0 else not isinstance(e, IndexError)):
@@ -248,19 +437,20 @@ def _step(op, pool, Stream, StreamTeeHub, thub, lit):
         if o == "thub":
             src = op["src"]
             if src["k"] == "const":
-                r = thub(src["v"], op["n"])
-                return {"const": r} if r is src["v"] or r == src["v"] and type(r) is int else {"err": "not-the-object"}
+                v = self.item_in(src["v"])
+                r = self.thub(v, op["n"])
+                return {"const": src["v"]} if r is v else {"err": "not-the-object"}
             try:
-                args = _build(src, pool, Stream)
+                args = self.build(src)
             except LookupError:
                 return {"err": "noobj"}
-            data = args[0] if src["k"] in ("list", "obj") else Stream(*args)
-            r = thub(data, op["n"])
-            _moved(src, pool, StreamTeeHub)
+            data = args[0] if src["k"] in ("list", "obj", "ref") else self.Stream(*args)
+            r = self.thub(data, op["n"])
+            self.moved(src)
             pool.append(r)
             return {"new": [len(pool) - 1]}
         if o == "tee":
-            rs = lit.tee(obj, op["n"])
+            rs = self.lit.tee(obj, op["n"])
             if not ishub:
                 pool[op["i"]] = None
             out = []
@@ -269,12 +459,91 @@ def _step(op, pool, Stream, StreamTeeHub, thub, lit):
                 out.append(len(pool) - 1)
             return {"new": out}
         raise ValueError("unknown op " + o)
-    except _Timeout:
-        raise
-    except OverflowError as e:
-        return {"err": "ENDLESS" if "ENDLESS" in str(e) else "OverflowError"}
-    except Exception as e:
-        return {"err": err_kind(e)}
+
+
+def impl(case):
+    # a request that does not terminate (e.g. filter rejecting every item of an endless stream)
+    # is cut by a CPU-time alarm; a first alarm is confirmed by a second run with a longer
+    # budget, so that a stalled machine can never turn into a reported "hang"
+    global _HANGS
+    first, second = (3.0, 15.0) if _HANGS < 3 else ((1.0, 4.0) if _HANGS < 8 else (0.1, 0.4))  # real hangs stay affordable
+    if case.get("slow"):
+        first, second = first * 4, second * 2
+    global _MEMERR
+    _MEMERR = False
+    out, timed_out = _run_history(case, first)
+    if timed_out and not _MEMERR:
+        out, timed_out = _run_history(case, second)
+        if timed_out:
+            _HANGS += 1
+    return out
+
+
+_HANGS = 0
+_MEMERR = False
+
+
+def _vm_bytes():
+    try:
+        with open("/proc/self/statm") as f:
+            return int(f.read().split()[0]) * resource.getpagesize()
+    except Exception:
+        return 1 << 30
+
+
+def _run_history(case, budget):
+    run = Runner(case)
+    steps, timed_out = [], False
+    out = {"steps": steps}
+    old = signal.signal(signal.SIGVTALRM, _alarm)
+    hook, sys.unraisablehook = sys.unraisablehook, lambda *_a: None   # StreamTeeHub.__del__ after a failed __init__
+    gc_was = gc.isenabled()
+    gc.disable()                      # a full collection inside the timed region could look like a hang
+    signal.setitimer(signal.ITIMER_VIRTUAL, budget)
+    # list() / tuple() of an endless C-level iterator (what a broken take / limit may hand to the default
+    # constructor) never runs Python code, so no alarm can stop it: it must die of MemoryError instead
+    soft, hard = resource.getrlimit(resource.RLIMIT_AS)
+    room = (384 << 20) if _HANGS < 3 else (96 << 20)
+    try:
+        resource.setrlimit(resource.RLIMIT_AS, (_vm_bytes() + room, hard))
+    except (ValueError, OSError):
+        pass
+    try:
+        with warnings.catch_warnings():
+            warnings.simplefilter("ignore")
+            for op in case["ops"]:
+                try:
+                    ob = run.step(op)
+                except _Timeout:
+                    ob = {"err": "ENDLESS"}
+                    timed_out = True
+                if ob.get("err") == "ENDLESS":      # the request does not terminate: same as the
+                    steps.append({"hang": True})    # model's / spec's "hang"; the history stops here
+                    break
+                steps.append(ob)
+            if run.hist:
+                try:
+                    out["lists"] = run.lists()
+                except FL.BadItem as e:
+                    out["lists"] = "baditem:" + str(e)
+            signal.setitimer(signal.ITIMER_VIRTUAL, 0)
+            for o in run.pool:                      # no MemoryLeakWarning noise from __del__
+                if isinstance(o, run.Hub) and isinstance(getattr(o, "_iters", None), list):
+                    o._iters[:] = []
+    except _Timeout:                  # alarm between two steps: let the confirmation run decide
+        timed_out = True
+        steps.append({"hang": True})
+    finally:
+        signal.setitimer(signal.ITIMER_VIRTUAL, 0)
+        try:
+            resource.setrlimit(resource.RLIMIT_AS, (soft, hard))
+        except (ValueError, OSError):
+            pass
+        signal.signal(signal.SIGVTALRM, old)
+        sys.unraisablehook = hook
+        if gc_was:
+            gc.enable()
+    return out, timed_out
 
 
 # ----------------------------------------------------------------------------------------
@@ -304,10 +573,19 @@ def round_count(n):
 
 
 class Sim:
-    """objects: None | dict(kind 's'/'h', pre, per, uses, flags)"""
+    """objects: None | dict(kind 's' Stream / 'h' StreamTeeHub / 'r' raw Stream subclass with its own
+    __iter__, pre, per, uses, flags); lists: the caller's containers dict(xs, lent, mutable, origin, passes)"""
 
-    def __init__(self):
+    def __init__(self, tagged=False):
         self.pool = []
+        self.lists = []
+        self.tagged = tagged
+
+    def fm(self, k, x):
+        return [MAPS[k](x[0]), x[1]] if self.tagged else MAPS[k](x)
+
+    def fp(self, k, x):
+        return PREDS[k](x[0] if self.tagged else x)
 
     def live(self, kinds="sh"):
         return [i for i, o in enumerate(self.pool) if o is not None and o["kind"] in kinds]
@@ -331,22 +609,37 @@ class Sim:
             return [x for xs in s["xss"] for x in xs], [], set()
         if k == "const":
             return [], [s["v"]], set()
+        if k == "ref":
+            if s["j"] >= len(self.lists):
+                return None
+            L = self.lists[s["j"]]
+            L["lent"] = True
+            L["passes"] += 1
+            return list(L["xs"]), [], set()
         j = s["j"]
         if j >= len(self.pool) or self.pool[j] is None:
             return None
         o = self.pool[j]
-        if o["kind"] == "s":
+        if k == "mixed" and o["kind"] == "h":
+            # finding D16: the real chain takes the use of the hub only when it gets there; from
+            # here on the hub and everything made from it or from the new stream may differ
+            o["flags"].add("lazyhub")
+        if o["kind"] != "h":
             self.pool[j] = None
         else:
             if o["uses"] == 0:
                 return None
             o["uses"] -= 1
+        if k == "mixed":
+            if o["per"]:
+                return list(s["pre"]) + list(o["pre"]), list(o["per"]), set(o["flags"])
+            return list(s["pre"]) + list(o["pre"]) + list(s["post"]), [], set(o["flags"])
         return list(o["pre"]), list(o["per"]), set(o["flags"])
 
     def target(self, i):
         """(index of the result, object data) for in-place methods; None on failure"""
         o = self.pool[i]
-        if o["kind"] == "s":
+        if o["kind"] != "h":
             return i, o
         if o["uses"] == 0:
             return None
@@ -355,19 +648,48 @@ class Sim:
         return len(self.pool) - 1, dict(o, kind="s", flags=set(o["flags"]))
 
     def apply(self, op):
-        """advance; returns a note dict (for classify)"""
+        """advance; returns a note dict (for classify / tally / shrink)"""
+        p0, l0 = len(self.pool), len(self.lists)
+        note = self._apply(op)
+        note.update(pool0=p0, pool1=len(self.pool), list0=l0, list1=len(self.lists))
+        return note
+
+    def _made(self, xs, origin, mutable=True):
+        self.lists.append({"xs": list(xs), "lent": False, "mutable": mutable, "origin": origin, "passes": 0})
+
+    def _apply(self, op):
         o = op["op"]
         note = {}
+        if o == "lit":
+            self._made(op["xs"], "lit")
+            return note
+        if o == "mut":
+            if op["j"] < len(self.lists):
+                L = self.lists[op["j"]]
+                note["origin"], note["lent"] = L["origin"], L["lent"]
+                k, xs = op["m"]["k"], L["xs"]
+                L["xs"] = ([] if k == "clear" else xs[::-1] if k == "reverse" else xs[1:] if k == "pop0" else
+                           xs[:-1] if k == "poplast" else xs + list(op["m"]["xs"]) if k == "extend" else
+                           [op["m"]["v"]] * len(xs))
+            return note
+        src = op.get("src")
+        if "i" in op and src and src["k"] == "ref" and src["j"] >= len(self.lists):
+            return {"nolist": True}
         if "i" in op and (op["i"] >= len(self.pool) or self.pool[op["i"]] is None):
             return {"noobj": True}
         obj = self.pool[op["i"]] if "i" in op else None
         if obj is not None:
             note["kind"] = obj["kind"]
             note["flags"] = sorted(obj["flags"])
+        if src and src["k"] in ("obj", "mixed") and src["j"] < len(self.pool) and self.pool[src["j"]]:
+            a = self.pool[src["j"]]
+            if "lazyhub" in a["flags"] or (src["k"] == "mixed" and a["kind"] == "h"):
+                note["lazyhub"] = True
         if o == "new":
             r = self.src(op["src"])
             if r is not None:
-                self.pool.append({"kind": "s", "pre": r[0], "per": r[1], "uses": 0, "flags": r[2]})
+                self.pool.append({"kind": "r" if op.get("raw") else "s", "pre": r[0], "per": r[1], "uses": 0,
+                                  "flags": r[2]})
         elif o in ("take", "peek", "next", "drain"):
             if obj["kind"] == "h":
                 if o == "take" or obj["uses"] == 0:
@@ -376,13 +698,18 @@ class Sim:
                     obj["uses"] -= 1
             n = None if o == "next" else (INF if o == "drain" else cnt_py(op["n"]))
             k = take_count(n)
+            container = k != "one"
             if k == "one":
                 k = 1
             if k == "all":
-                k = len(obj["pre"]) if not obj["per"] else 0
+                if obj["per"]:
+                    return note                      # never returns
+                k = len(obj["pre"])
             avail = self.unroll(obj, k)
             note["past_end"] = (not obj["per"]) and len(avail) < k
-            if o in ("take",) or (obj["kind"] == "s" and o in ("next", "drain")):
+            if container:
+                self._made(avail[:k], o, mutable=op.get("ctor") != "tuple" and op.get("via") != "tuple")
+            if o in ("take",) or (obj["kind"] != "h" and o in ("next", "drain")):
                 obj["pre"] = avail[k:]
         elif o in ("skip", "limit", "append", "map", "filter"):
             t = self.target(op["i"])
@@ -393,9 +720,7 @@ class Sim:
             if o in ("skip", "limit"):
                 n = round_count(cnt_py(op["n"]))
                 if n is None:
-                    if obj["kind"] == "s":
-                        return note
-                    return note          # placeholder already appended
+                    return note          # (for a hub the placeholder is already appended)
                 un = pre + per * n
                 if not per and n > len(pre):
                     flags.add(o + "-past-end")
@@ -404,11 +729,9 @@ class Sim:
                 else:
                     pre, per = un[:n], []
             elif o == "map":
-                f = MAPS[op["f"]]
-                pre, per = [f(x) for x in pre], [f(x) for x in per]
+                pre, per = [self.fm(op["f"], x) for x in pre], [self.fm(op["f"], x) for x in per]
             elif o == "filter":
-                p = PREDS[op["p"]]
-                pre, per = [x for x in pre if p(x)], [x for x in per if p(x)]
+                pre, per = [x for x in pre if self.fp(op["p"], x)], [x for x in per if self.fp(op["p"], x)]
             else:
                 r = self.src(op["src"])
                 if r is None:
@@ -437,24 +760,35 @@ class Sim:
         return note
 
 
+def _notes(case):
+    sim = Sim(bool(case.get("tagged")))
+    return [sim.apply(op) for op in case["ops"]], sim
+
+
 # ----------------------------------------------------------------------------------------
 # generation
 # ----------------------------------------------------------------------------------------
-def _vals(rng, n):
+def _vals(rng, n, sim=None):
+    if sim is not None and sim.tagged:
+        # few values, several representations: equal items of different types meet all the time
+        return [[rng.randint(-2, 3), rng.choice(sim.palette)] for _ in range(n)]
     return [rng.randint(-4, 9) for _ in range(n)]
 
 
 def _new_src(rng, sim, allow_obj=True):
     r = rng.random()
     if r < 0.50:
-        return {"k": "list", "xs": _vals(rng, rng.choice([0, 1, 2, 3, 4, 5, 6, 8]))}
+        return {"k": "list", "xs": _vals(rng, rng.choice([0, 1, 2, 3, 4, 5, 6, 8]), sim)}
     if r < 0.68:
-        return {"k": "cyc", "xs": _vals(rng, rng.randint(2, 4))}
+        return {"k": "cyc", "xs": _vals(rng, rng.randint(2, 4), sim)}
     if r < 0.76:
-        return {"k": "const", "v": rng.randint(-4, 9)}
-    if r < 0.88 or not allow_obj or not sim.live():
-        return {"k": "chain", "xss": [_vals(rng, rng.randint(0, 3)) for _ in range(rng.randint(2, 3))]}
-    return {"k": "obj", "j": rng.choice(sim.live())}
+        return {"k": "const", "v": _vals(rng, 1, sim)[0]}
+    if r < 0.88 or not allow_obj or not sim.live("shr"):
+        return {"k": "chain", "xss": [_vals(rng, rng.randint(0, 3), sim) for _ in range(rng.randint(2, 3))]}
+    j = rng.choice(sim.live("shr"))
+    if rng.random() < 0.3:
+        return {"k": "mixed", "pre": _vals(rng, rng.randint(0, 2), sim), "j": j, "post": _vals(rng, rng.randint(0, 2), sim)}
+    return {"k": "obj", "j": j}
 
 
 def _count(rng, sim, i, wild, for_round=False):
@@ -500,10 +834,27 @@ def _count(rng, sim, i, wild, for_round=False):
     return cnt_flt(x)
 
 
+def _gen_raw_op(rng, sim, i):
+    """a Stream subclass instance whose __iter__ is not `_data`: only what goes through iter()"""
+    o = rng.choice(["drain", "next", "next", "tee", "thub", "new", "append"])
+    if o in ("drain", "next") and not (o == "drain" and sim.pool[i]["per"]):
+        return {"op": o, "i": i}
+    if o == "tee":
+        return {"op": "tee", "i": i, "n": rng.randint(1, 3)}
+    if o == "thub":
+        return {"op": "thub", "src": {"k": "obj", "j": i}, "n": rng.randint(0, 3)}
+    others = [k for k in sim.live("s") if k != i]
+    if o == "append" and others:
+        return {"op": "append", "i": rng.choice(others), "src": {"k": "obj", "j": i}}
+    return {"op": "new", "src": {"k": "obj", "j": i}}
+
+
 def _gen_op(rng, sim, wild):
-    streams, hubs = sim.live("s"), sim.live("h")
+    streams, hubs, raws = sim.live("s"), sim.live("h"), sim.live("r")
     if not streams and not hubs or rng.random() < 0.10:
         return {"op": "new", "src": _new_src(rng, sim)}
+    if raws and rng.random() < 0.2:
+        return _gen_raw_op(rng, sim, rng.choice(raws))
     r = rng.random()
     pick_hub = hubs and (not streams or rng.random() < 0.25)
     i = rng.choice(hubs if pick_hub else streams)
@@ -518,46 +869,115 @@ def _gen_op(rng, sim, wild):
         return {"op": o, "i": i, "n": _count(rng, sim, i, wild, for_round=True)}
     if o == "append":
         src = _new_src(rng, sim)
-        if src["k"] == "obj" and src["j"] == i:
-            src = {"k": "list", "xs": _vals(rng, 2)}
+        if src["k"] in ("obj", "mixed") and src["j"] == i and obj["kind"] != "h":   # (a hub appended to itself: two uses)
+            src = {"k": "list", "xs": _vals(rng, 2, sim)}
         return {"op": o, "i": i, "src": src}
     if o == "map":
         return {"op": o, "i": i, "f": rng.randrange(len(MAPS))}
     if o == "filter":
         p = rng.randrange(len(PREDS))
-        if endless and not any(PREDS[p](x) for x in obj["per"]):
+        if endless and not any(sim.fp(p, x) for x in obj["per"]):
             p = 4
         return {"op": o, "i": i, "p": p}
     if o == "drain" and endless:
         return {"op": "take", "i": i, "n": cnt_int(rng.randint(3, 9))}
     if o == "thub":
         if r < 0.08:
-            return {"op": "thub", "src": {"k": "const", "v": rng.randint(-4, 9)}, "n": rng.randint(0, 3)}
-        src = {"k": "obj", "j": i} if r < 0.7 else _new_src(rng, sim, allow_obj=False)
+            return {"op": "thub", "src": {"k": "const", "v": _vals(rng, 1, sim)[0]}, "n": rng.randint(0, 3)}
+        src = {"k": "obj", "j": i} if r < 0.62 else (
+            {"k": "mixed", "pre": _vals(rng, rng.randint(0, 2), sim), "j": i, "post": _vals(rng, rng.randint(0, 2), sim)}
+            if r < 0.7 else _new_src(rng, sim, allow_obj=False))
         if src["k"] == "const":
-            src = {"k": "cyc", "xs": [src["v"], src["v"] + 1]}
+            src = {"k": "cyc", "xs": [src["v"], _vals(rng, 1, sim)[0]]}
         return {"op": "thub", "src": src, "n": rng.randint(0, 3)}
     if o == "tee":
         return {"op": "tee", "i": i, "n": rng.randint(1, 3)}
     return {"op": o, "i": i}
 
 
-def _finish(sim, ops):
+MUTS = ["clear", "reverse", "pop0", "poplast", "extend", "fill"]
+REF_AS = ["same", "same", "same", "gen", "iter", "tuple", "iterable", "restream", "altstream", "deque"]
+
+
+def _gen_mut(rng, sim):
+    k = rng.choice(MUTS)
+    if k == "extend":
+        return {"k": k, "xs": _vals(rng, rng.randint(1, 3), sim)}
+    if k == "fill":
+        return {"k": k, "v": _vals(rng, 1, sim)[0]}
+    return {"k": k}
+
+
+def _decorate(rng, sim, op):
+    """operand flavours of one method call of a `hist` history"""
+    o = op["op"]
+    if o in ("take", "peek") and op["n"]["t"] != "none":
+        op["ctor"] = rng.choice(["list", "list", "list", "listkw", "cap", "tuple"])
+    elif o == "drain":
+        op["via"] = rng.choice(["list", "for", "tuple", "cap"])
+    elif o in ("map", "filter"):
+        op["fl"] = rng.choice(FL.FN_FLAVOURS)
+    src = op.get("src")
+    if src is not None and o in ("new", "append", "thub"):
+        if src["k"] in ("list", "chain") and sim.lists and rng.random() < 0.45:
+            lent = [j for j, L in enumerate(sim.lists) if L["lent"]]
+            j = rng.choice(lent) if lent and rng.random() < 0.35 else rng.randrange(len(sim.lists))
+            op["src"] = src = {"k": "ref", "j": j, "as": rng.choice(REF_AS)}
+        elif src["k"] in ("list", "chain", "mixed"):
+            src["as"] = rng.choice(FL.SRC_FLAVOURS)
+        if o == "new" and src["k"] in ("list", "ref") and rng.random() < 0.12:
+            op["raw"] = True
+    return op
+
+
+def _gen_hop(rng, sim, wild, tees=None):
+    r = rng.random()
+    mutable = [j for j, L in enumerate(sim.lists) if L["mutable"] and not L["lent"]]
+    if mutable and r < 0.22:
+        j = rng.choice(mutable[-3:]) if rng.random() < 0.7 else rng.choice(mutable)
+        return {"op": "mut", "j": j, "m": _gen_mut(rng, sim)}
+    if r < 0.26:
+        return {"op": "lit", "xs": _vals(rng, rng.choice([0, 1, 2, 3, 5]), sim)}
+    op = _gen_op(rng, sim, wild)
+    if tees is not None and op["op"] in ("peek", "copy", "thub", "tee"):
+        # long histories: every tee stays in the model's heap for ever; keep their number bounded
+        if tees[0] <= 0:
+            i = op.get("i", op.get("src", {}).get("j"))
+            if i is None or i >= len(sim.pool) or sim.pool[i] is None or sim.pool[i]["kind"] != "s":
+                return {"op": "lit", "xs": _vals(rng, 2, sim)}
+            if sim.remaining(i) is not None and sim.remaining(i) < 3:
+                op = {"op": "append", "i": i, "src": {"k": "list", "xs": _vals(rng, rng.randint(2, 6), sim)}}
+            else:
+                op = {"op": "take", "i": i, "n": cnt_int(rng.randint(0, 3))}
+        else:
+            tees[0] -= 1
+    return _decorate(rng, sim, op)
+
+
+def _finish(sim, ops, rng=None):
     """drain every live object (a bounded take for endless ones), every use of every hub"""
+    def via(fin):
+        if rng is not None and fin["op"] == "drain":
+            fin["via"] = rng.choice(["cap", "list", "for"])
+        if rng is not None and fin["op"] == "take":
+            fin["ctor"] = rng.choice(["cap", "list"])
+        return fin
     for i in list(range(len(sim.pool))):
         o = sim.pool[i]
         if o is None:
             continue
-        if o["kind"] == "s":
-            fin = {"op": "drain", "i": i} if not o["per"] else {"op": "take", "i": i, "n": cnt_int(7)}
-            ops.append(fin)
+        if o["kind"] != "h":
+            fin = {"op": "drain", "i": i} if not o["per"] else (
+                {"op": "take", "i": i, "n": cnt_int(7)} if o["kind"] == "s" else {"op": "next", "i": i})
+            ops.append(via(fin))
             sim.apply(fin)
         else:
             for _ in range(o["uses"] + 1):
                 fin = {"op": "drain", "i": i} if not o["per"] else {"op": "tee", "i": i, "n": 1}
-                ops.append(fin)
+                ops.append(via(fin))
+                before = len(sim.pool)
                 sim.apply(fin)
-                if o["per"] and sim.pool[-1] is not None and fin["op"] == "tee" and len(sim.pool) - 1 != i:
+                if o["per"] and fin["op"] == "tee" and len(sim.pool) > before and sim.pool[-1] is not None:
                     t = {"op": "take", "i": len(sim.pool) - 1, "n": cnt_int(5)}
                     ops.append(t)
                     sim.apply(t)
@@ -571,6 +991,28 @@ def _history(rng, length, wild):
         sim.apply(op)
     _finish(sim, ops)
     return {"entry": "history", "ops": ops}
+
+
+def _new_sim(rng, tagged):
+    sim = Sim(tagged)
+    if tagged:
+        sim.palette = rng.sample(range(FL.TAGS), rng.randint(2, 4))
+    return sim
+
+
+def _hist(rng, length, wild, tagged, tees=None, **extra):
+    """a history in which the caller keeps, mutates and passes on containers (entry `hist`)"""
+    sim, ops = _new_sim(rng, tagged), []
+    for _ in range(length):
+        op = _gen_hop(rng, sim, wild, tees)
+        ops.append(op)
+        sim.apply(op)
+    _finish(sim, ops, rng)
+    case = {"entry": "hist", "ops": ops}
+    if tagged:
+        case["tagged"] = True
+    case.update(extra)
+    return case
 
 
 def _exhaustive(depth):
@@ -592,18 +1034,208 @@ def _exhaustive(depth):
         yield {"entry": "history", "ops": ops}
 
 
+def _owner_cases():
+    """what take / peek hand out belongs to the caller: every (first call, count, constructor,
+    mutation by the caller, following use) on a finite Stream, a periodic Stream and a thub"""
+    bases = [
+        ("fin", [{"op": "new", "src": {"k": "list", "xs": [1, 2, 3, 4, 5]}}], 0),
+        ("per", [{"op": "new", "src": {"k": "cyc", "xs": [1, 2, 3]}}], 0),
+        ("hub", [{"op": "thub", "src": {"k": "list", "xs": [1, 2, 3, 4, 5]}, "n": 3}], 0),
+        ("copy", [{"op": "new", "src": {"k": "list", "xs": [1, 2, 3, 4, 5]}}, {"op": "copy", "i": 0}], 1),
+    ]
+    follows = [
+        lambda i, p: [{"op": "take", "i": i, "n": cnt_int(2), "ctor": "list"}],
+        lambda i, p: [{"op": "peek", "i": i, "n": cnt_int(4), "ctor": "list"}],
+        lambda i, p: [{"op": "copy", "i": i}, {"op": "take", "i": p, "n": cnt_int(2), "ctor": "list"}],
+        lambda i, p: [{"op": "next", "i": i}],
+        lambda i, p: [{"op": "append", "i": i, "src": {"k": "ref", "j": 0, "as": "same"}}],
+        lambda i, p: [{"op": "skip", "i": i, "n": cnt_int(1)}, {"op": "take", "i": i, "n": cnt_int(2), "ctor": "list"}],
+        lambda i, p: [{"op": "tee", "i": i, "n": 2}],
+        lambda i, p: [{"op": "new", "src": {"k": "ref", "j": 0, "as": "same"}}],
+    ]
+    muts = [{"k": "clear"}, {"k": "reverse"}, {"k": "pop0"}, {"k": "poplast"}, {"k": "extend", "xs": [8, 9]},
+            {"k": "fill", "v": 0}]
+    for name, base, i in bases:
+        for first in ("peek", "take"):
+            if name == "hub" and first == "take":
+                continue
+            for n in (cnt_int(1), cnt_int(3), cnt_flt(2.5), {"t": "inf"}):
+                if n["t"] == "inf" and name == "per":
+                    continue
+                for ctor in ("list", "listkw"):
+                    for m in muts:
+                        for fo in follows:
+                            sim, ops = Sim(), []
+                            seq = base + [{"op": first, "i": i, "n": n, "ctor": ctor}, {"op": "mut", "j": 0, "m": m}]
+                            for op in seq:
+                                ops.append(op)
+                                sim.apply(op)
+                            for op in fo(i, len(sim.pool)):
+                                op = dict(op)
+                                if name == "hub" and op["op"] == "take":
+                                    op["op"] = "peek"
+                                ops.append(op)
+                                sim.apply(op)
+                            _finish(sim, ops)
+                            yield {"entry": "hist", "ops": ops}
+
+
+def _shared_case(rng, tagged):
+    """one list of the caller passed to several calls (Stream(L), x.append(L), thub(L, n)) in several
+    flavours, the streams consumed in between; L must serve every call whole and stay what it is"""
+    sim, ops = _new_sim(rng, tagged), []
+
+    def add(op):
+        ops.append(op)
+        sim.apply(op)
+    add({"op": "lit", "xs": _vals(rng, rng.choice([1, 2, 3, 4, 6]), sim)})
+    if rng.random() < 0.5:
+        add({"op": "mut", "j": 0, "m": _gen_mut(rng, sim)})
+    for _ in range(rng.randint(2, 6)):
+        ref = {"k": "ref", "j": 0, "as": rng.choice(REF_AS)}
+        streams = sim.live("s")
+        c = rng.choice(["new", "new", "append", "thub"]) if streams else rng.choice(["new", "thub"])
+        if c == "new":
+            add({"op": "new", "src": ref})
+        elif c == "append":
+            add({"op": "append", "i": rng.choice(streams), "src": ref})
+        else:
+            add({"op": "thub", "src": ref, "n": rng.randint(1, 3)})
+        if rng.random() < 0.6 and sim.live("s"):
+            i = rng.choice(sim.live("s"))
+            add(_decorate(rng, sim, {"op": rng.choice(["take", "peek"]), "i": i, "n": _count(rng, sim, i, False)}))
+    _finish(sim, ops, rng)
+    case = {"entry": "hist", "ops": ops}
+    if tagged:
+        case["tagged"] = True
+    return case
+
+
+POW2 = [63, 64, 65, 127, 128, 129, 255, 256, 257, 511, 512, 513, 1023, 1024, 1025, 2047, 2048, 2049,
+        4095, 4096, 4097]
+
+
+BIG = [4095, 4096, 4097, 4098, 5000, 8191, 8192, 8193]
+
+
+def _long_stream(rng, tier, turn=0):
+    """thousands of items, counts around powers of two, few tees (every tee buffer stays in the
+    model's heap), exact integer items all different"""
+    sim, ops = Sim(), []
+
+    def add(op):
+        ops.append(op)
+        return sim.apply(op)
+    N = rng.choice([4095, 4096, 4097, 4098, 4100, 5000, 8192, 8193, 9000, rng.randint(4000, 9000), rng.randint(1000, 9000)])
+    add({"op": "new", "src": {"k": "list", "xs": list(range(N)), "as": rng.choice(["list", "tuple", "gen", "iter"])}})
+    tees = 3 if N <= 4200 else 0        # (a tee buffer over n items costs the Lean model n*n/2 steps)
+    # every case starts with one call whose count lies beyond 4096 (the kinds take turns)
+    big = rng.choice(BIG) if rng.random() < 0.8 else rng.choice(POW2[6:])
+    kind = ["take", "limit", "skip", "peek"][turn % 4]
+    if kind == "peek" and tees == 0:
+        kind = "take"
+    if kind in ("take", "peek"):
+        add({"op": kind, "i": 0, "n": cnt_int(big) if rng.random() < 0.8 else cnt_flt(big + 0.5),
+             "ctor": rng.choice(["list", "list", "cap", "tuple"])})
+        tees -= kind == "peek"
+    else:
+        add({"op": kind, "i": 0, "n": cnt_int(big) if rng.random() < 0.8 else cnt_flt(big + 0.25)})
+        if kind == "limit":
+            add({"op": "take", "i": 0, "n": cnt_int(big + rng.choice([-1, 0, 1])), "ctor": "list"})
+    for _ in range(rng.randint(6, 16)):
+        live = sim.live("s")
+        if not live:
+            break
+        i = rng.choice(live)
+        rem = sim.remaining(i)
+        c = rng.choice(POW2 if rng.random() < 0.7 else POW2[-3:] + [4098, 8191, 8192, 8193])
+        if rem is not None and rem > 0 and rng.random() < 0.35:
+            c = min(c, rem + rng.choice([-1, 0, 1]))
+        o = rng.choice(["take"] * 6 + ["peek", "copy", "skip", "skip", "limit", "map", "filter", "append", "mut",
+                        "next", "thub"])
+        if o in ("peek", "copy", "thub"):
+            if tees <= 0:
+                o = "take"
+            else:
+                tees -= 1
+        if o in ("take", "peek"):
+            add({"op": o, "i": i, "n": cnt_int(max(c, 0)) if rng.random() < 0.8 else cnt_flt(max(c, 0) + 0.5),
+                 "ctor": rng.choice(["list", "list", "cap", "tuple"])})
+        elif o == "copy":
+            add({"op": "copy", "i": i})
+        elif o == "thub":
+            add({"op": "thub", "src": {"k": "obj", "j": i}, "n": 2})
+        elif o == "skip":
+            add({"op": "skip", "i": i, "n": cnt_int(max(c, 0))})
+        elif o == "limit":
+            add({"op": "limit", "i": i, "n": cnt_int(max(rem or 0, 0) + rng.choice([-65, -1, 0, 1, 64]) if rem else c)})
+        elif o == "map":
+            add({"op": "map", "i": i, "f": rng.choice([0, 2, 5]), "fl": rng.choice(FL.FN_FLAVOURS)})
+        elif o == "filter":
+            add({"op": "filter", "i": i, "p": rng.choice([0, 3, 4])})
+        elif o == "append":
+            if sim.lists and rng.random() < 0.6:
+                add({"op": "append", "i": i, "src": {"k": "ref", "j": rng.randrange(len(sim.lists)), "as": "same"}})
+            else:
+                add({"op": "append", "i": i, "src": {"k": "list", "xs": list(range(-1, -1 - rng.choice(POW2[:9]), -1))}})
+        elif o == "mut":
+            mutable = [j for j, L in enumerate(sim.lists) if L["mutable"] and not L["lent"]]
+            if mutable:
+                add({"op": "mut", "j": rng.choice(mutable), "m": {"k": rng.choice(["clear", "reverse", "pop0", "poplast"])}})
+        else:
+            add({"op": "next", "i": i})
+    _finish(sim, ops, rng)
+    return {"entry": "hist", "ops": ops, "cap": 30000, "slow": True, "long": "stream"}
+
+
+def _long_history(rng, tier):
+    """hundreds of steps on a pool of short streams (the wrappers nest hundreds deep)"""
+    steps = rng.choice([300, 500, 800]) if tier == "quick" else rng.choice([500, 1000, 2000])
+    return _hist(rng, steps, rng.random() < 0.3, rng.random() < 0.3, tees=[rng.randint(8, 24)],
+                 cap=30000, slow=True, long="history")
+
+
+def _peek_loop(rng, n):
+    """the same few calls repeated n times on one stream (peek / take / append of what was taken)"""
+    ops = [{"op": "new", "src": {"k": "list", "xs": list(range(6))}}]
+    for k in range(n):
+        ops.append({"op": "peek", "i": 0, "n": cnt_int(rng.randint(1, 3)), "ctor": "list"})
+        ops.append({"op": "mut", "j": 2 * k, "m": {"k": rng.choice(["reverse", "clear", "pop0"])}})
+        ops.append({"op": "take", "i": 0, "n": cnt_int(1), "ctor": "list"})
+        ops.append({"op": "append", "i": 0, "src": {"k": "ref", "j": 2 * k + 1, "as": "same"}})
+    ops.append({"op": "drain", "i": 0})
+    return {"entry": "hist", "ops": ops, "cap": 30000, "slow": True, "long": "loop"}
+
+
 def generate(rng, tier, scale=1):
     cases = []
     if tier == "quick":
-        nrand, maxlen, depth = 5000 * scale, 14, 3
+        nrand, maxlen, depth, nhist, nlong = 4000 * scale, 14, 3, 4500 * scale, 10 * scale
     else:
-        nrand, maxlen, depth = 50000 * scale, 40, 4
+        nrand, maxlen, depth, nhist, nlong = 40000 * scale, 40, 4, 40000 * scale, 40 * scale
     if scale == 1:
         cases.extend(_exhaustive(depth))
+        cases.extend(_owner_cases())
     for k in range(nrand):
         wild = (k % 5) >= 3
         cases.append(_history(rng, rng.randint(3, maxlen), wild))
+    for k in range(nhist):
+        wild = (k % 5) >= 3
+        cases.append(_hist(rng, rng.randint(3, maxlen), wild, tagged=(k % 3 == 2)))
+    for k in range(nhist // 10):
+        cases.append(_shared_case(rng, tagged=(k % 3 == 2)))
+    turn = rng.randrange(4)
+    for k in range(nlong):
+        cases.append(_long_stream(rng, tier, turn + 2 * k))
+        cases.append(_long_stream(rng, tier, turn + 2 * k + 1))
+        cases.append(_long_history(rng, tier))
+    for k in range(max(nlong // 2, 1)):
+        cases.append(_peek_loop(rng, rng.choice([60, 200, 500]) if tier == "quick" else rng.choice([500, 1000, 2000])))
     return cases
+
+
+def request(case):
+    return case
 
 
 # ----------------------------------------------------------------------------------------
@@ -618,23 +1250,60 @@ def _first_diff(a, b):
     return None
 
 
+def _lent_cut(case, model):
+    """first step that leaves the list model: the caller mutates a list that he has passed to a
+    stream before (the real code reads a list argument lazily; the model took its contents at the
+    call) — computed from the model's own observations, so that it also holds for every candidate
+    of the shrinker"""
+    if case.get("entry") != "hist":
+        return None
+    nlists, lent = 0, set()
+    for k, op in enumerate(case["ops"]):
+        if k >= len(model):
+            break
+        if op["op"] == "mut" and op["j"] in lent:
+            return k
+        src = op.get("src")
+        if src and src.get("k") == "ref" and src["j"] < nlists:
+            lent.add(src["j"])
+        if op["op"] == "lit" or "v" in model[k]:
+            nlists += 1
+    return None
+
+
+def _cut(case, steps, drv):
+    # a request on which the real code and the model both do not terminate (filter that rejects a
+    # whole period of an endless stream, list() of an endless stream) is outside the property:
+    # the history is compared up to that step only
+    cut = next((k for k, (a, b) in enumerate(zip(steps, drv["model"])) if a == b == {"hang": True}), None)
+    lc = _lent_cut(case, drv["model"])
+    if lc is not None and (cut is None or lc < cut):
+        cut = lc
+    return cut
+
+
 def compare(case, io, drv):
     out = []
     steps = io.get("steps")
     if steps is None:
         return [("model", "impl harness failed: %r" % (io,)), ("spec", "impl harness failed")]
-    # a request on which the real code and the model both do not terminate (filter that rejects a
-    # whole period of an endless stream, list() of an endless stream) is outside the property:
-    # the history is compared up to that step only
-    cut = next((k for k, (a, b) in enumerate(zip(steps, drv["model"])) if a == b == {"hang": True}), None)
+    cut = _cut(case, steps, drv)
     for kind in ("model", "spec"):
         a, b = (steps, drv[kind]) if cut is None else (steps[:cut], drv[kind][:cut])
         d = _first_diff(a, b)
         if d is not None:
             k, x, y = d
             op = case["ops"][k] if k < len(case["ops"]) else None
-            out.append((kind, "step %d %s: impl=%s %s=%s" % (k, op, x, kind, y)))
+            out.append((kind, "step %d %s: impl=%s %s=%s" % (k, op, _abbr(x), kind, _abbr(y))))
+        elif cut is None and case.get("entry") == "hist" and io.get("lists") != drv[kind + "_lists"]:
+            out.append((kind, "the caller's containers at the end: impl=%s %s=%s" % (
+                _abbr(io.get("lists")), kind, _abbr(drv[kind + "_lists"]))))
     return out
+
+
+def _abbr(x, n=400):
+    s = json.dumps(x, default=str)
+    return s if len(s) <= n else s[:n] + "..."
 
 
 def nontrivial(case, io):
@@ -644,8 +1313,11 @@ def nontrivial(case, io):
 def _summ(x):
     if x is None:
         return "nothing"
+    for k in ("alias", "dirty", "dirtyarg", "ctype"):
+        if k in x:
+            return k
     if "err" in x:
-        return "err=" + x["err"]
+        return "err=" + x["err"].split(":")[0]
     if "hang" in x:
         return "hang"
     return sorted(x)[0] if x else "nothing"
@@ -653,15 +1325,17 @@ def _summ(x):
 
 def classify(case, io, drv):
     steps = io.get("steps") or []
-    cut = next((k for k, (a, b) in enumerate(zip(steps, drv["model"])) if a == b == {"hang": True}), None)
+    cut = _cut(case, steps, drv)
     if cut is not None:
-        steps, drv = steps[:cut], {"model": drv["model"][:cut], "spec": drv["spec"][:cut]}
+        steps, drv = steps[:cut], dict(drv, model=drv["model"][:cut], spec=drv["spec"][:cut])
     d = _first_diff(steps, drv["spec"]) or _first_diff(steps, drv["model"])
     if d is None:
+        if cut is None and case.get("entry") == "hist" and io.get("lists") != drv.get("spec_lists"):
+            return "final-contents-of-the-callers-containers"
         return "no-difference"
     k, x, y = d
     ops = case["ops"]
-    sim, note = Sim(), {}
+    sim, note = Sim(bool(case.get("tagged"))), {}
     for op in ops[:k + 1]:
         note = sim.apply(op)
     o = ops[k]["op"] if k < len(ops) else "?"
@@ -671,24 +1345,39 @@ def classify(case, io, drv):
             return "consume-after-%s:RuntimeError" % flags[0]
         if note.get("past_end") and o in ("take", "peek"):
             return "%s:past-end:RuntimeError" % o
+    if note.get("lazyhub") or "lazyhub" in (note.get("flags") or []):
+        return "thub-among-several-arguments:use-taken-lazily"
     return "%s:%s:impl:%s:expected:%s" % (o, note.get("kind", "-"), _summ(x), _summ(y))
+
+
+def _bucket(n):
+    for b in (4, 8, 16, 32, 64, 128, 256, 512, 1024, 2048, 4096):
+        if n <= b:
+            return "<=%d" % b
+    return ">4096"
 
 
 def tally(eng, case, io):
     ops = case["ops"]
     steps = io.get("steps", [])
-    eng.count("history_len", min(len(ops) // 5 * 5, 60))
-    sim = Sim()
+    hist = case.get("entry") == "hist"
+    eng.count("entry", case.get("entry") + (":tagged" if case.get("tagged") else "") +
+              (":long-" + case["long"] if case.get("long") else ""))
+    eng.count("history_len", min(len(ops) // 5 * 5, 60) if len(ops) < 60 else _bucket(len(ops)))
+    sim = Sim(bool(case.get("tagged")))
+    longest = 0
     for k, op in enumerate(ops):
         note = sim.apply(op)
         ob = steps[k] if k < len(steps) else None
         kind = note.get("kind", "-")
-        eng.count("op", op["op"] + ("@hub" if kind == "h" else ""))
+        eng.count("op", op["op"] + ("@hub" if kind == "h" else "@raw-subclass" if kind == "r" else ""))
         if "n" in op and isinstance(op["n"], dict):
             t = op["n"]["t"]
             if t == "int":
                 v = op["n"]["v"]
                 t = "int<0" if v < 0 else ("int=0" if v == 0 else "int>0")
+                if v >= 60:
+                    eng.count("count_near_pow2", min(POW2, key=lambda p: abs(p - v)) if any(abs(p - v) <= 1 for p in POW2) else "other")
             elif t == "flt":
                 x = cnt_py(op["n"])
                 t = "flt.5" if x % 1 == 0.5 else ("flt<=0" if x <= 0 else "flt")
@@ -696,9 +1385,34 @@ def tally(eng, case, io):
             if note.get("past_end"):
                 eng.count("past_end", op["op"])
         if ob is not None:
-            eng.count("observation", "err:" + ob["err"] if "err" in ob else sorted(ob)[0])
+            eng.count("observation", "err:" + ob["err"].split(":")[0] if "err" in ob else sorted(ob)[0])
+            if "v" in ob:
+                longest = max(longest, len(ob["v"]))
         if op.get("src"):
             eng.count("source", op["op"] + ":" + op["src"]["k"])
+        if hist:
+            src = op.get("src") or {}
+            if src.get("as"):
+                eng.count("source_flavour", ("ref:" if src["k"] == "ref" else "") + src["as"])
+            if op.get("raw"):
+                eng.count("source_flavour", "raw Stream subclass in the pool")
+            if op.get("ctor"):
+                eng.count("constructor", op["op"] + ":" + op["ctor"])
+            if op.get("via"):
+                eng.count("drain_via", op["via"])
+            if op.get("fl"):
+                eng.count("function_flavour", op["fl"])
+            if op["op"] == "mut":
+                eng.count("caller_mutation", op["m"]["k"] + " of a " + str(note.get("origin", "missing")) + " result"
+                          if note.get("origin") != "lit" else op["m"]["k"] + " of an own list")
+    if hist:
+        for L in sim.lists:
+            eng.count("caller_list_passed", min(L["passes"], 4))
+        if case.get("tagged"):
+            tags = {x[1] for op in ops for x in (op.get("xs") or (op.get("src") or {}).get("xs") or []) if isinstance(x, list)}
+            for t in tags:
+                eng.count("item_representation", FL.TAG_NAMES[t])
+        eng.count("longest_container", _bucket(longest))
     eng.count("pool_size", min(len(sim.pool), 12))
     eng.count("endless_objects", min(sum(1 for o in sim.pool if o and o["per"]), 4))
     if any(st.get("err") == "RuntimeError" for st in steps):
@@ -708,28 +1422,193 @@ def tally(eng, case, io):
 # ----------------------------------------------------------------------------------------
 # shrinking / neighbours
 # ----------------------------------------------------------------------------------------
-def _renumber(ops, removed_new):
-    return ops
+def _drop(ops, notes, ks):
+    """the history without the steps `ks`, the pool / list indices of the later steps renumbered
+    (None when a later step names an object that one of the dropped steps created)"""
+    out = list(ops)
+    for k in sorted(ks, reverse=True):
+        n = notes[k]
+        p0, p1, l0, l1 = n["pool0"], n["pool1"], n["list0"], n["list1"]
+        rest = []
+        for op in out[k + 1:]:
+            if p1 > p0:
+                if "i" in op:
+                    if p0 <= op["i"] < p1:
+                        return None
+                    if op["i"] >= p1:
+                        op = dict(op, i=op["i"] - (p1 - p0))
+                src = op.get("src")
+                if src and src["k"] in ("obj", "mixed"):
+                    if p0 <= src["j"] < p1:
+                        return None
+                    if src["j"] >= p1:
+                        op = dict(op, src=dict(src, j=src["j"] - (p1 - p0)))
+            if l1 > l0:
+                if op["op"] == "mut":
+                    if l0 <= op["j"] < l1:
+                        return None
+                    if op["j"] >= l1:
+                        op = dict(op, j=op["j"] - (l1 - l0))
+                src = op.get("src")
+                if src and src["k"] == "ref":
+                    if l0 <= src["j"] < l1:
+                        return None
+                    if src["j"] >= l1:
+                        op = dict(op, src=dict(src, j=src["j"] - (l1 - l0)))
+            rest.append(op)
+        out = out[:k] + rest
+    return out
+
+
+def _plain(case):
+    """the same history without operand flavours"""
+    ops = []
+    for op in case["ops"]:
+        op = {k: v for k, v in op.items() if k not in ("fl", "via", "raw")}
+        if op.get("ctor") not in (None, "list"):
+            op["ctor"] = "list"
+        if op.get("src") and op["src"].get("as") not in (None, "same"):
+            op["src"] = dict(op["src"])
+            op["src"]["as"] = "same" if op["src"]["k"] == "ref" else "list"
+        ops.append(op)
+    return dict(case, ops=ops)
+
+
+def _untag(case):
+    def it(x):
+        return x[0] if isinstance(x, list) else x
+
+    def src(s):
+        s = dict(s)
+        if "xs" in s:
+            s["xs"] = [it(x) for x in s["xs"]]
+        if "xss" in s:
+            s["xss"] = [[it(x) for x in xs] for xs in s["xss"]]
+        if "v" in s:
+            s["v"] = it(s["v"])
+        for f in ("pre", "post"):
+            if f in s:
+                s[f] = [it(x) for x in s[f]]
+        return s
+    ops = []
+    for op in case["ops"]:
+        op = dict(op)
+        if "xs" in op:
+            op["xs"] = [it(x) for x in op["xs"]]
+        if "src" in op:
+            op["src"] = src(op["src"])
+        if "m" in op:
+            op["m"] = src(op["m"])
+        ops.append(op)
+    c = dict(case, ops=ops)
+    c.pop("tagged", None)
+    return c
 
 
 def shrink(case):
+    """candidates in the order: prefixes, blocks of steps, flavours, single steps, smaller operands
+    (counts and lists by powers of two first).  Big cases (long runs) offer fewer candidates per
+    round: each costs the model up to a second"""
+    limit = 200 if len(json.dumps(case)) < 20000 else 48
+    for c in itertools.islice(_shrink(case), limit):
+        yield c
+
+
+def _shrink(case):
     ops = case["ops"]
     n = len(ops)
-    # drop a suffix, then single steps (indices of later objects may shift: such candidates
-    # simply stop reproducing and are discarded by the engine)
-    for k in range(n - 1, 0, -1):
-        yield dict(case, ops=ops[:k])
-    for k in range(n):
-        yield dict(case, ops=ops[:k] + ops[k + 1:])
+    seen = set()
+
+    def emit(c):
+        if c is None:
+            return False
+        k = json.dumps(c, sort_keys=True)
+        if k in seen:
+            return False
+        seen.add(k)
+        return True
+    # 1. prefixes (no renumbering needed), coarse to fine
+    for k in sorted({n // 2, n * 3 // 4, n * 7 // 8, n - 2, n - 1}):
+        if 0 < k < n:
+            c = dict(case, ops=ops[:k])
+            if emit(c):
+                yield c
+    # 2. blocks of steps, indices of the later steps renumbered
+    notes, _sim = _notes(case)
+    size = n // 2
+    budget = 40
+    while size >= 2 and budget > 0:
+        for a in range(0, n, size):
+            o2 = _drop(ops, notes, range(a, min(a + size, n)))
+            c = None if o2 is None else dict(case, ops=o2)
+            if emit(c):
+                budget -= 1
+                yield c
+        size //= 2
+    # 3. flavours
+    if case.get("tagged"):
+        c = _untag(case)
+        if emit(c):
+            yield c
+    c = _plain(case)
+    if emit(c):
+        yield c
+    # 4. single steps, last first
+    singles = 0
+    for k in range(n - 1, -1, -1):
+        o2 = _drop(ops, notes, [k])
+        c = None if o2 is None else dict(case, ops=o2)
+        if emit(c):
+            singles += 1
+            yield c
+            if singles >= 90:
+                break
+    # 5. smaller operands
     for k, op in enumerate(ops):
+        def put(new):
+            return dict(case, ops=ops[:k] + [new] + ops[k + 1:])
         src = op.get("src")
-        if src and src["k"] in ("list", "cyc") and len(src["xs"]) > (1 if src["k"] == "list" else 2):
-            yield dict(case, ops=ops[:k] + [dict(op, src=dict(src, xs=src["xs"][:-1]))] + ops[k + 1:])
+        for holder, key in ((op, None), (src, "src"), (op.get("m"), "m")):
+            if not holder or not isinstance(holder.get("xs"), list):
+                continue
+            xs = holder["xs"]
+            floor = 2 if holder.get("k") == "cyc" else 0
+            big = [xs[:len(xs) - (1 << b)] for b in range(12, 0, -1) if (1 << b) < len(xs)] if len(xs) > 8 else []
+            for ys in ([xs[:len(xs) // 2]] if len(xs) > 8 else []) + big + [xs[:-1], xs[1:]]:
+                if len(ys) >= floor and len(ys) < len(xs):
+                    h2 = dict(holder, xs=ys)
+                    c = put(h2 if key is None else dict(op, **{key: h2}))
+                    if emit(c):
+                        yield c
+        if src and src["k"] == "mixed":
+            for c in (put(dict(op, src={"k": "obj", "j": src["j"]})), put(dict(op, src=dict(src, pre=[]))),
+                      put(dict(op, src=dict(src, post=[])))):
+                if emit(c):
+                    yield c
         if src and src["k"] == "chain":
-            yield dict(case, ops=ops[:k] + [dict(op, src={"k": "list", "xs": [x for xs in src["xss"] for x in xs]})] + ops[k + 1:])
-        c = op.get("n")
-        if isinstance(c, dict) and c["t"] == "int" and c["v"] > 0:
-            yield dict(case, ops=ops[:k] + [dict(op, n=cnt_int(c["v"] - 1))] + ops[k + 1:])
+            c = put(dict(op, src={"k": "list", "xs": [x for xs in src["xss"] for x in xs]}))
+            if emit(c):
+                yield c
+        for f in ("fl", "via", "raw"):
+            if f in op:
+                c = put({a: b for a, b in op.items() if a != f})
+                if emit(c):
+                    yield c
+        if src and src.get("as") not in (None, "same", "list"):
+            c = put(dict(op, src=dict(src, **{"as": "same" if src["k"] == "ref" else "list"})))
+            if emit(c):
+                yield c
+        cnt = op.get("n")
+        if isinstance(cnt, dict) and cnt["t"] == "int" and cnt["v"] > 0:
+            big = [cnt["v"] - (1 << b) for b in range(12, 0, -1) if (1 << b) < cnt["v"]] if cnt["v"] > 8 else []
+            for v in ([cnt["v"] // 2] if cnt["v"] > 8 else []) + big + [cnt["v"] - 1]:
+                c = put(dict(op, n=cnt_int(v)))
+                if emit(c):
+                    yield c
+        if isinstance(cnt, int) and cnt > 1 and op["op"] in ("thub", "tee"):
+            c = put(dict(op, n=cnt - 1))
+            if emit(c):
+                yield c
 
 
 def neighbours(case):
